@@ -105,6 +105,30 @@ def build_go(res):
     return True, out
 
 
+def race_run(res, cmd, args, timeout=1800):
+    """Build one harness command with the race detector and run it; a race
+    report is a violation (supporting evidence for the runtime part of the
+    property, never a proof of absence)."""
+    env = dict(GOENV, CGO_ENABLED="1")
+    rc, out = sh(["go", "build", "-race", "-tags", "verif", "-o", os.path.join(BIN, cmd + "_race"), "./cmd/" + cmd], cwd=HARNESS, env=env, timeout=900)
+    if rc != 0:
+        res.notes.append("race build unavailable: " + out[-300:])
+        res.meta["race_detector"] = "not run (race build failed)"
+        return 0
+    p = subprocess.run([os.path.join(BIN, cmd + "_race")] + args, stdout=subprocess.PIPE, stderr=subprocess.PIPE, timeout=timeout,
+                       env=dict(os.environ, GORACE="halt_on_error=0 exitcode=66"))
+    err = p.stderr.decode("utf-8", "replace")
+    n = len([l for l in p.stdout.decode("utf-8", "replace").splitlines() if l.startswith("{")])
+    res.meta["race_detector"] = "%s_race %s: %d runs, %d race reports" % (cmd, " ".join(args), n, err.count("WARNING: DATA RACE"))
+    if "WARNING: DATA RACE" in err:
+        violation(res, {"property": res.prop, "what": "the Go race detector reported a data race", "command": [cmd + "_race"] + args,
+                        "report": err[:6000]}, True)
+        return 1
+    if p.returncode != 0:
+        raise Broken("%s_race exited %d: %s" % (cmd, p.returncode, err[-1000:]))
+    return 0
+
+
 def gen_tables():
     rc, out = sh([os.path.join(BIN, "gentables"), os.path.join(COQ, "Gen")], timeout=300)
     if rc != 0:
